@@ -72,6 +72,11 @@ def run(ctx):
         wf(ctx, 'Element.toXml', real, t)
         if i < 2: ctx.sample({'tree': t, 'xml_tail': real[-160:]})
     XC.corr_parser(ctx, 400 if ctx.quick else 8000)
+    # "no namespace" can be said in two ways through the API (None and ''): one attribute all the same
+    for first, second in ((None, ''), ('', None)):
+        e = Element(qname=(X.TEXTNS, 'p'), check_grammar=False)
+        e.setAttrNS(first, 'x', '1'); e.setAttrNS(second, 'x', '2'); e.setAttrNS(first, 'y', '3')
+        wf(ctx, 'Element.toXml', X.real_toXml(e), {'attributes_set': [[first, 'x', '1'], [second, 'x', '2'], [first, 'y', '3']]})
     # documents, fresh
     for i in range(15 if ctx.quick else 200):
         doc = ctx.rng.choice([OpenDocumentText, OpenDocumentSpreadsheet])()
